@@ -63,7 +63,8 @@ theorem writeAt_eq (ops : CacheOps κ) (g : Graph) (n : NodeId) (r : Reg) (a : I
       if g[r.port]? = some .port then
         ((s.dev.write a buf).1,
           ⟨if s.dev.writeOk a buf.length = true ∧ r.mode = .writeThrough then
-             ops.cache (ops.invalidateBy (ops.invalidateBy s.cache n) r.port) n a r.len buf
+             ops.cache (ops.invalidateOf (ops.invalidateBy (ops.invalidateBy s.cache n) r.port) n)
+               n a r.len buf
            else ops.invalidateOf (ops.invalidateBy (ops.invalidateBy s.cache n) r.port) n,
            (s.dev.write a buf).2⟩)
       else (.err .invalidNode, ⟨ops.invalidateBy s.cache n, s.dev⟩) := by
